@@ -181,12 +181,41 @@ impl<'a> StateMachine<'a> {
                 || self.handle_grep_line()?
                 || self.should_skip_line()
                 || self.emit_line_unchanged()?;
+
+            #[cfg(dandavison_delta_verif)]
+            self.verif_trace_line("line");
         }
 
         self.handle_pending_line_with_diff_name()?;
         self.painter.paint_buffered_minus_and_plus_lines();
         self.painter.emit()?;
+        #[cfg(dandavison_delta_verif)]
+        self.verif_trace_line("end");
         Ok(())
+    }
+
+    /// Pure observation for external monitors: state kind and buffer occupancy
+    /// after each handled line (and after the end-of-input flush).
+    #[cfg(dandavison_delta_verif)]
+    fn verif_trace_line(&self, what: &str) {
+        if crate::verif_hooks::tracing() {
+            let state = format!("{:?}", self.state);
+            let kind = state
+                .split(|c: char| !c.is_alphanumeric())
+                .next()
+                .unwrap_or("");
+            crate::verif_hooks::trace(&format!(
+                "{} {} minus={} plus={} outbuf={} conflict={}",
+                what,
+                kind,
+                self.painter.minus_lines.len(),
+                self.painter.plus_lines.len(),
+                self.painter.output_buffer.len(),
+                self.painter.merge_conflict_lines[merge_conflict::Ours].len()
+                    + self.painter.merge_conflict_lines[merge_conflict::Ancestral].len()
+                    + self.painter.merge_conflict_lines[merge_conflict::Theirs].len(),
+            ));
+        }
     }
 
     fn ingest_line(&mut self, raw_line_bytes: &[u8]) {
